@@ -181,6 +181,22 @@ class Sweeper:
                 return c
             instr = fused
             consumed = [BitVec.const(pre)] + consumed
+            # fusion() keeps going while the fused result still fuses with what follows (a prefix that absorbed a prefix)
+            hops = 0
+            while isinstance(instr, Obj) and instr.cls.name == "PRE" and c.n < len(data) and hops < 4:
+                hops += 1
+                try:
+                    nxt, ndec = ia.decode_one(data[c.n:], ADDR + 1 + c.n)
+                    again = ia.method(instr, "fuse", [nxt])
+                except (Raised, Unknown):
+                    break
+                if again is None:
+                    break
+                k2 = ndec.get_pos()
+                consumed = consumed + data[c.n:c.n + k2]
+                c.n += k2
+                instr = again
+                c.cls = instr.cls.name
         try:
             c.name = ia.method(instr, "name", [])
             c.length = ia.method(instr, "length", [])
@@ -330,6 +346,11 @@ def sweep(stages: tuple = ("encode", "render", "analyze", "lift", "trunc"), with
                     continue
                 for p in pre_ops:
                     jobs_pre.append(("pre", p, op, sels, stages))
+            # a prefix in front of another prefix byte is a case of its own (the base case of a lone prefix is a rejection, so the
+            # loop above never pairs them)
+            for q in pre_ops:
+                for p in pre_ops:
+                    jobs_pre.append(("pre", p, q, [{}, {1: 0x00}, {1: 0xC8}], stages))   # nothing / NOP / MV (m),(n) behind the pair
             pre_lists = pool.map(_work, jobs_pre, chunksize=16)
             pre_cases = [c for lst in pre_lists for c in lst]
             for c in pre_cases:
